@@ -24,7 +24,7 @@ EXTENDS Naturals, FiniteSets
 CONSTANTS
   Objects,          \* shared objects
   FieldsOf(_),      \* fields of an object
-  Tag(_, _),        \* Tag(o, f) \in {"eager", "lazy"}
+  Tag(_, _),        \* Tag(o, f) \in {"eager", "lazy", "scratch"} (scratch: rewritten by every use, e.g. a static buffer)
   Guard(_, _),      \* Guard(o, f) \in Locks \cup {NoLock}: the lock protecting the field
   Threads,          \* worker threads
   Locks,
